@@ -4,6 +4,7 @@ import (
 	"fmt"
 	"math/big"
 	"strconv"
+	"strings"
 
 	"github.com/llir/llvm/ir"
 	"github.com/llir/llvm/ir/constant"
@@ -717,6 +718,9 @@ func BuildConst(k *Const, tc *TypeCtx, g Globals) constant.Constant {
 	case "chars":
 		return constant.NewCharArrayFromString(k.V.(string))
 	case "gref":
+		if k.Name == "" && k.Idx > 0 {
+			return g.Global(fmt.Sprintf("#%d", k.Idx))
+		}
 		return g.Global(k.Name)
 	case "blockaddress":
 		return constant.NewBlockAddress(g.Global(k.F), g.BlockOf(k.F, k.B))
@@ -857,6 +861,7 @@ type Built struct {
 	tc     *TypeCtx
 	cur    *string
 	byName map[string]constant.Constant
+	byIdx  map[int]constant.Constant // ordered mode: the object made by the i-th module-level call
 	anon   []constant.Constant
 }
 
@@ -864,6 +869,11 @@ type Built struct {
 func (bt *Built) Global(name string) constant.Constant {
 	if g, ok := bt.byName[name]; ok {
 		return g
+	}
+	if strings.HasPrefix(name, "#") { // the object made by the i-th module-level call
+		if i, err := strconv.Atoi(name[1:]); err == nil && bt.byIdx[i] != nil {
+			return bt.byIdx[i]
+		}
 	}
 	if n, err := strconv.Atoi(name); err == nil && n < len(bt.anon) {
 		return bt.anon[n]
@@ -937,18 +947,15 @@ func BuildProgTracked(p *Prog, cur *string) *Built {
 			bt.Blocks = append(bt.Blocks, bt.F.NewBlock(p.Fn.Blocks[i].Name))
 		}
 	}
-	refersToFn := false
+	// ordered mode: a "DefFunc" entry marks the position at which the function under construction is
+	// created; every constructor is then called strictly in the order of the list
+	ordered := false
 	for i := range p.Decls {
-		if p.Decls[i].Op == "NewAlias" || p.Decls[i].Op == "NewIFunc" || (p.Decls[i].Init != nil && p.Decls[i].Init.C == "blockaddress") {
-			refersToFn = true
+		if p.Decls[i].Op == "DefFunc" {
+			ordered = true
 		}
 	}
-	// function declarations first (callees, personality), so that m.Funcs lists them before the definition
-	for i := range p.Decls {
-		d := &p.Decls[i]
-		if d.Op != "NewFunc" {
-			continue
-		}
+	declFunc := func(d *Decl) *ir.Func {
 		sig := d.Ty.E
 		var ps []*ir.Param
 		for k := range sig.PS {
@@ -956,16 +963,41 @@ func BuildProgTracked(p *Prog, cur *string) *Built {
 		}
 		f := m.NewFunc(d.Name, bt.tc.Type(sig.Ret), ps...)
 		f.Sig.Variadic = sig.VA
-		bt.register(d.Name, f)
+		return f
 	}
-	if refersToFn {
+	refersToFn := false
+	for i := range p.Decls {
+		if ordered {
+			break
+		}
+		if p.Decls[i].Op == "NewAlias" || p.Decls[i].Op == "NewIFunc" || (p.Decls[i].Init != nil && p.Decls[i].Init.C == "blockaddress") {
+			refersToFn = true
+		}
+	}
+	// function declarations first (callees, personality), so that m.Funcs lists them before the definition
+	for i := range p.Decls {
+		d := &p.Decls[i]
+		if d.Op != "NewFunc" || ordered {
+			continue
+		}
+		bt.register(d.Name, declFunc(d))
+	}
+	if refersToFn && !ordered {
 		mkFunc()
 	}
+	bt.byIdx = map[int]constant.Constant{}
 	for i := range p.Decls {
 		d := &p.Decls[i]
 		*cur = "module:" + d.Op
+		var made constant.Constant
 		switch d.Op {
 		case "NewFunc":
+			if ordered {
+				made = declFunc(d)
+			}
+		case "DefFunc":
+			mkFunc()
+			made = bt.F
 		case "NewGlobal":
 			// a global without initialiser is a declaration: LLVM requires external linkage (DESIGN.md 3, rule 3)
 			g := m.NewGlobal(d.Name, bt.tc.Type(&d.Ty))
@@ -973,18 +1005,24 @@ func BuildProgTracked(p *Prog, cur *string) *Built {
 			if d.AS != 0 {
 				g.AddrSpace = types.AddrSpace(d.AS) // no constructor parameter: set through the exported field
 			}
-			bt.register(d.Name, g)
+			made = g
 		case "NewGlobalDef":
-			bt.register(d.Name, m.NewGlobalDef(d.Name, BuildConst(d.Init, bt.tc, bt)))
+			made = m.NewGlobalDef(d.Name, BuildConst(d.Init, bt.tc, bt))
 		case "NewAlias":
-			bt.register(d.Name, m.NewAlias(d.Name, BuildConst(d.Init, bt.tc, bt)))
+			made = m.NewAlias(d.Name, BuildConst(d.Init, bt.tc, bt))
 		case "NewIFunc":
-			bt.register(d.Name, m.NewIFunc(d.Name, BuildConst(d.Init, bt.tc, bt)))
+			made = m.NewIFunc(d.Name, BuildConst(d.Init, bt.tc, bt))
 		default:
 			panic(fmt.Sprintf("schema: no binding for module-level call %q (spec gap)", d.Op))
 		}
+		if made != nil {
+			bt.byIdx[i+1] = made
+			if d.Op != "DefFunc" && !(d.Op == "NewFunc" && !ordered) {
+				bt.register(d.Name, made)
+			}
+		}
 	}
-	if !refersToFn {
+	if !refersToFn && !ordered {
 		mkFunc()
 	}
 	if bt.F == nil {
